@@ -122,7 +122,7 @@ func c10Check(c c10Case) (viol string) {
 	return ""
 }
 
-var c10ValueAlphabet = []string{`"`, "a", "\n", "\r", "é", " ", `\`, "%", "\uFFFD"}
+var c10ValueAlphabet = []string{`"`, "a", "\n", "\r", "é", " ", `\`, "%", "\uFFFD", "\xe9"}
 
 type c10Args struct {
 	Space  string `json:"space"` // trees | values | groupby
@@ -231,6 +231,37 @@ func c10Worker(ctx *rt.Ctx, job *rt.Job) []*rt.Violation {
 		if job.Shard == 0 {
 			ctx.Cov.Sample(1, map[string]any{"space": "values", "max_len": a.Len, "alphabet": c10ValueAlphabet})
 		}
+	case "wide":
+		// flat operators with many operands (negated and plain) and deep chains: width is not depth, and neither has a
+		// documented limit below these sizes
+		for _, w := range []int{65, 201, 300, 1001, 1500} {
+			var nots, plain []*model.Expr
+			for i := 0; i < w; i++ {
+				nots = append(nots, model.Not(model.Eq("a", fmt.Sprintf("v%d", i))))
+				plain = append(plain, model.Eq("b", fmt.Sprintf("v%d", i)))
+			}
+			for _, t := range []*model.Expr{model.Or(nots...), model.And(nots...), model.Or(plain...), model.And(model.Or(plain...), model.Or(nots...))} {
+				if !check(c10Case{Tree: t}, true) {
+					return vs
+				}
+			}
+		}
+		for _, d := range []int{65, 201, 300} {
+			t := model.Eq("a", "x")
+			u := model.Eq("a", "x")
+			for i := 0; i < d; i++ {
+				t = model.Not(t)
+				if i%2 == 0 {
+					u = model.And(u, model.Eq("b", "y"))
+				} else {
+					u = model.Or(model.Eq("b", "y"), u)
+				}
+			}
+			if !check(c10Case{Tree: t}, true) || !check(c10Case{Tree: u}, true) {
+				return vs
+			}
+		}
+		ctx.Cov.Sample(1, map[string]any{"space": "wide", "widths": []int{65, 201, 300, 1001, 1500}, "depths": []int{65, 201, 300}})
 	case "placeholders":
 		for _, pnum := range []int{1, 2, 9, 10, 99, 1000, 2147483646, 2147483647} {
 			l := model.Eq("a", fmt.Sprintf("$%d", pnum))
@@ -277,10 +308,11 @@ func c10Run(ctx *rt.Ctx) []*rt.Violation {
 		add(c10Args{Space: "values", Len: 4}, 8)
 	}
 	add(c10Args{Space: "groupby"}, 1)
+	add(c10Args{Space: "wide"}, 1)
 	add(c10Args{Space: "placeholders"}, 1)
 	outs := rt.RunJobs(ctx, jobs, rt.SpawnOpt{})
 	vs := rt.Collect(ctx, outs, nil)
-	ctx.Cov.Note("rule", "every tree of the stated depth/arity over 3 leaves (literal, placeholder, value with quote and newline; single-operand and directly nested same-operator nodes included), every value string up to the stated length over {quote, a, newline, carriage return, é, space, backslash, percent, U+FFFD} in three positions, every group-by list of length 0..3 over 3 identifiers on 3 trees, placeholder numbers {1,2,9,10,99,1000,2^31-2,2^31-1} in 4 tree shapes: parse(format(t)) must succeed and be equal to t after flattening/unwrapping, group-by equal, and format(parse(s1)) == s1 for s1 = format(parse(format(t))); non-trivial = trees with >=2 operators, all value and group-by cases")
+	ctx.Cov.Note("rule", "every tree of the stated depth/arity over 3 leaves (literal, placeholder, value with quote and newline; single-operand and directly nested same-operator nodes included), every value string up to the stated length over {quote, a, newline, carriage return, é, space, backslash, percent, U+FFFD, the lone byte 0xE9 (not valid UTF-8)} in three positions, flat operators with 65..1500 operands and chains nested 65..300 deep, every group-by list of length 0..3 over 3 identifiers on 3 trees, placeholder numbers {1,2,9,10,99,1000,2^31-2,2^31-1} in 4 tree shapes: parse(format(t)) must succeed and be equal to t after flattening/unwrapping, group-by equal, and format(parse(s1)) == s1 for s1 = format(parse(format(t))); non-trivial = trees with >=2 operators, all value and group-by cases")
 	ctx.Assumef("column names are valid identifiers and AND/OR nodes have >=1 operand (property precondition)")
 	return vs
 }
